@@ -6,7 +6,8 @@ EXPLANATION = (
     "D2 the records handed to the parser are a prefix of the buffer ending at the LAST \"\\n\\n\" and exactly that many bytes are removed (split_off/drain) - nothing else assigns the buffer; "
     "D3 an incomplete trailing multi-byte character is not an error: UTF-8 validation either covers only the prefix that ends at a separator found on bytes, or its Err edge consults Utf8Error::error_len()/valid_up_to(); "
     "D4 a malformed entry surfaces as io::Error(InvalidData) and entries are appended in splitter order, nothing after the error; "
-    "D5 Display for SummaryStream prints \"{entry}\\n\" per entry in entries() order")
+    "D5 Display for SummaryStream prints \"{entry}\\n\" per entry in entries() order"
+    " The last-separator search is windows(len(SEP)).rposition(== SEP) over the whole carry-over buffer.")
 NOT_DECIDED = [
     "equality of the collected entries with the one-call parse for every partition (follows from D1-D3 plus str semantics, not re-derived)",
     "behaviour after a failed write (the property does not constrain it)",
@@ -60,7 +61,9 @@ def run(ctx):
                         if isinstance(it, tuple) and it and it[0] == "loc" and len(it) > 2:
                             it = strip_refs(it[2])
                     clo = strip_refs(call_args(s)[1]) if len(call_args(s)) > 1 else None
-                    okw = is_call(it, "[T]>::windows") and const_int(call_args(it)[1]) == len(SEP)
+                    # ... over the whole carry-over buffer (a separator can straddle two writes: searching only the new chunk misses it)
+                    okw = is_call(it, "[T]>::windows") and const_int(call_args(it)[1]) == len(SEP) and \
+                        carried_unchanged(call_args(it)[0], lambda u: isinstance(u, tuple) and u[0] == "field" and u[3] == "buf" and deval(u[1]) == ("param", 1))
                     okp = False
                     if isinstance(clo, tuple) and clo[:2] == ("agg", "closure"):
                         rp = ret_paths(ctx.paths(clo[2]) or [])
